@@ -2777,7 +2777,8 @@ def main():
         print(__doc__)
         sys.exit(2)
     pid = a[0]
-    tier = os.environ.get("VERIF_TIER") or a[1]
+    # the tier named on the command line wins; VERIF_TIER only fills in when none is given
+    tier = a[1] if a[1] in ("quick", "thorough") else (os.environ.get("VERIF_TIER") or "quick")
     if a[1] == "--replay":
         tier = "quick"
     if pid not in CHECKS:
